@@ -58,8 +58,26 @@ W["memo_label"] = [
          rule("A", lit("b"))],
         [block(1, params=["x"], ret="(tuple cid (arg %s))" % hx("x"))], "ab", memo=memo)
     for memo in (0, 1)]
+# ---- probes of the C06 check (not findings): one rule reached several times at one offset, inside and outside ! predicates
+def act_a(cid=1): return block(cid, params=["x"], ret="(tuple cid text pos (arg %s))" % hx("x"))
+P = []
+for i, inp in enumerate(["aaaad", "aab", "ad", "", "aacaa"]):
+    P.append(case("c06probe-0-%d/0" % i,
+        [rule("S", un("star", seq(un("not", seq(ref("A"), lit("b"))), un("not", seq(ref("A"), lit("c"))), anyc()))),
+         rule("A", act(1, lab("x", un("star", lit("a")))))], [act_a()], inp, memo=1))
+    P.append(case("c06probe-1-%d/0" % i,
+        [rule("S", un("star", seq(un("not", ref("B")), anyc()))),
+         rule("B", alt(seq(ref("A"), lit("b")), seq(ref("A"), lit("c")), seq(un("not", ref("A")), lit("d")))),
+         rule("A", act(1, lab("x", un("plus", lit("a")))))], [act_a()], inp, memo=1))
+    P.append(case("c06probe-2-%d/0" % i,
+        [rule("S", alt(seq(un("not", ref("A")), lit("x")), seq(ref("A"), lit("b")), seq(un("and", ref("A")), un("not", un("not", ref("A"))), lit("aac")), ref("A"))),
+         rule("A", act(1, lab("x", un("plus", lit("a")))), display="letters")], [act_a()], inp, memo=1))
+# a result computed inside a ! predicate and reused outside it (the expected set of the final report differs under Memoize:
+# outside C06's claim, inside the model: q_memo_expected)
+P.append(case("c06probe-3-0/0", [rule("S", alt(seq(un("not", ref("A")), lit("x")), ref("A"))), rule("A", lit("a"))], [], "b", memo=1))
+W["c06_probes"] = P
 os.makedirs(os.path.join(V, "corpus"), exist_ok=True)
 for k, lines in W.items():
-    with open(os.path.join(V, "corpus", "kf_%s.txt" % k), "w") as f:
+    with open(os.path.join(V, "corpus", ("%s.txt" if k.endswith("_probes") else "kf_%s.txt") % k), "w") as f:
         f.write("\n".join(lines) + "\n")
 print("wrote", sorted(W))
